@@ -96,7 +96,8 @@ pub struct Rt {
 
 pub uninterp spec fn rt_state<S>(id: int) -> S;
 /// address resolution is a function of the address within one activation
-pub uninterp spec fn rt_resolve(a: Address) -> Option<ActorID>;
+/// address resolution may change when a send creates an account: it is a function of the address and of how many sends were made
+pub uninterp spec fn rt_resolve(a: Address, nsends: nat) -> Option<ActorID>;
 pub uninterp spec fn rt_code_of(id: ActorID) -> Option<Cid>;
 pub uninterp spec fn rt_builtin_type(c: Cid) -> Option<Type>;
 
@@ -193,7 +194,7 @@ impl Rt {
     #[verifier::external_body]
     pub fn store(&self) -> (r: &'static Store) { unimplemented!() }
     #[verifier::external_body]
-    pub fn resolve_address(&self, a: &Address) -> (r: Option<ActorID>) ensures r == rt_resolve(*a) { unimplemented!() }
+    pub fn resolve_address(&self, a: &Address) -> (r: Option<ActorID>) ensures r == rt_resolve(*a, self.sends@.len()) { unimplemented!() }
     #[verifier::external_body]
     pub fn get_actor_code_cid(&self, id: &ActorID) -> (r: Option<Cid>) ensures r == rt_code_of(*id) { unimplemented!() }
     #[verifier::external_body]
@@ -308,6 +309,13 @@ impl Rt {
                 final(self).balance@ == old(self).balance@ - value@ && final(self).state_id == old(self).state_id,
             !(r.is_ok() && r->Ok_0.exit_code.value == 0) ==> final(self).balance == old(self).balance
                 && final(self).state_id == old(self).state_id && final(self).events == old(self).events,
+    { unimplemented!() }
+    /// emitting an actor event: counted, no other effect
+    #[verifier::external_body]
+    pub fn emit_event<E>(&mut self, e: &E) -> (r: Result<(), ActorError>)
+        ensures
+            r.is_ok() ==> *final(self) == (Rt { events: Ghost(old(self).events@ + 1), ..*old(self) }),
+            r.is_err() ==> *final(self) == *old(self),
     { unimplemented!() }
     #[verifier::external_body]
     pub fn delete_actor(&mut self) -> (r: Result<(), ActorError>)
